@@ -125,8 +125,8 @@ PROPS["C09"] = {
     "text": "Node with one of every service (SDO server, asynchronous RPDO, event and synchronous TPDO, SYNC consumer, heartbeat producer and consumer, EMCY, LSS). Alphabet: NMT command specifiers {1,2,128,129,130,0,3,127,255} x target {own id, 0, other, 80h | own id, 80h}; LSS switch + configure node-id 7 + store (the node id changes at the next reset: NMT addressing, SDO identifiers, boot-up and heartbeat must follow, the old SDO identifier becomes foreign); CONmtSetMode, CONodeStart, CONmtReset(node/com), CONodeStop; probe frames for SDO, RPDO, SYNC, heartbeat of a monitored and an unmonitored node, LSS switch/inquire, a foreign identifier, the node's own transmit identifiers and three identifiers that equal a served one (NMT, SDO, RPDO) in their low 11 bits only; COEmcySet/Clr, COTPdoTrigPdo, tick. After every step: node mode, the sequence of mode-change callbacks, the reset-request callback, the number and content of boot-up frames, which service reacted (frames per identifier, mapped object, PDO callback), and how often the frame was handed to the application callback are compared with the reference. The reachable state set is closed (fixpoint) for node ids 1, 5 and 127, started and unstarted. A fifth configuration replaces the heartbeat services by a TPDO that lives on timers (event time 3 ticks, inhibit time 2 ticks, application trigger): its frames may appear only while the reference FSM is OPERATIONAL, whichever timer or trigger path produces them. Identifier sweep: in every reachable state of all five configurations a frame on each of the 2047 base-format identifiers the node has no service for (all but NMT, SYNC, the RPDO, the SDO request, the monitored node's heartbeat and LSS; payload reading as a heartbeat / NMT command for this node, thorough: also eight FFh bytes) must reach the application callback exactly once (at most once in STOPPED), send nothing, cause no other callback and leave the node's memory byte for byte as it was. In the same states a block download dialogue on the SDO request identifier - initiate (answered), a segment inside the block (consumed silently), client abort - must in PRE-OPERATIONAL and OPERATIONAL belong to the SDO server alone (no application callback, no other service), otherwise each frame is one nobody claims.",
     "note": "heartbeat timing is not compared here (C10), only content and at most one per tick; in STOPPED the delivery of unclaimed frames to the application is unconstrained as the statement says; after CONodeStop only safety is judged; NMT frames carry DLC 2",
     "jobs": {
-        "quick": [J("c09", c, depth=80, deadline=120) for c in range(5)],
-        "thorough": [J("c09", c, depth=80, deadline=600) for c in range(5)],
+        "quick": [J("c09", c, depth=80, deadline=120) for c in range(5)] + [J("c18", 0, depth=7, deadline=60, opts={"reactivate": 1})],
+        "thorough": [J("c09", c, depth=80, deadline=600) for c in range(5)] + [J("c18", 0, depth=10, deadline=600, max_states=20000000, opts={"reactivate": 1})],
     },
 }
 
@@ -268,9 +268,13 @@ def c18_jobs(quick):
         if quick:
             jobs.append(J("c18", c, depth=60, opts={"part": 2, "small": 1}))
             jobs.append(J("c18", c, depth=8, deadline=60))
+            if c < 2: jobs.append(J("c18", c, depth=6, deadline=60, opts={"nopoll": 1}))          # refused answers and a node error that nobody reads
+            if c < 2: jobs.append(J("c18", c, depth=7, deadline=60, opts={"reactivate": 1}))      # a repeated activation request reaches the node although it closed the controller
         else:
             jobs.append(J("c18", c, depth=60, opts={"part": 2}, deadline=600, max_states=8000000))
             jobs.append(J("c18", c, depth=40, deadline=800, max_states=20000000))
+            if c < 2: jobs.append(J("c18", c, depth=9, deadline=600, max_states=20000000, opts={"nopoll": 1}))
+            if c < 2: jobs.append(J("c18", c, depth=10, deadline=600, max_states=20000000, opts={"reactivate": 1}))
     return jobs
 PROPS["C18"] = {
     "level": "model_checking",
